@@ -733,7 +733,6 @@ def run_simulation(case):
     out = []
     groups = [g for g in mesh.Get_list_groupElem()]
     shape_of = {(g.Ne, g.Get_gauss(MatrixType.rigi).nPg): str(g.elemType) for g in groups}
-    gdim = {str(g.elemType): g.dim for g in groups}
     assert len(shape_of) == len(groups), "groups must be distinguishable by (Ne, nPg)"
 
     # ---- observation point: what the material is handed, and what it returns -------------------------------
